@@ -29,7 +29,7 @@ X1 = [[0.0], [1.0], [2.0], [1.0], [0.0], [1.0], [2.0], [0.0]]
 Y1 = [0, 0, 1, 1, 0, 1, 0, 1]
 A1 = list("aaaabbbb")
 X2 = [[2.0], [1.0], [2.0], [0.0], [0.0], [1.0], [1.0], [2.0]]
-Y2 = [0, 1, 1, 0, 1, 1, 0, 0]
+Y2 = [0, 0, 1, 1, 1, 0, 1, 0]  # chosen so that the base learner fitted on D2 differs from the one fitted on D1
 A2 = list("abababab")
 PX = [[0.0], [1.0], [2.0], [0.0], [1.0], [2.0]]
 PA = list("aaabbb")
@@ -74,7 +74,7 @@ def make(cfg):
     if cfg == "EG_dp":
         return red.ExponentiatedGradient(ExactLearner(), red.DemographicParity(difference_bound=0.1), eps=0.05, max_iter=8)
     if cfg == "EG_eo_nu":
-        return red.ExponentiatedGradient(ExactLearner(), red.EqualizedOdds(difference_bound=0.1), eps=0.1, max_iter=6, nu=0.01)
+        return red.ExponentiatedGradient(ExactLearner(), red.EqualizedOdds(difference_bound=0.1), eps=0.3, max_iter=6, nu=0.01, eta0=1.5)
     if cfg == "GS_dp":
         return red.GridSearch(ExactLearner(), red.DemographicParity(), grid_size=5)
     if cfg == "GS_bgl":
